@@ -147,6 +147,8 @@ pub fn base_sets() -> Vec<(&'static str, Vec<SpacePoint>)> {
     v.push(("two 7-point clumps 3.54 cm apart on the diagonal", (0..14).map(|i| { let k = i % 7; if i < 7 { sp(0.115 + 0.002 * k as f64, 2.2, 0.10 + 0.001 * k as f64) } else { sp(0.152 + 0.002 * k as f64, 2.2, 0.136 + 0.001 * k as f64) } }).collect()));
     // sparse ladder: steps of 2.4 cm in the plane and 2.4 cm in z (3.39 cm in space) between 13 points on a spiral
     v.push(("sparse diagonal ladder of 14 points", (0..14).map(|i| sp(0.11 + 0.005 * i as f64, 0.4 + 0.16 * i as f64, -0.2 + 0.024 * i as f64)).collect()));
+    // three disconnected groups on one Hough line: radial segments at the same azimuth at three heights (10, 12, 10 points)
+    v.push(("three radial segments of 10/12/10 points at one azimuth, 20 cm apart in z", (0..32).map(|i| { let (g, k) = if i < 10 { (0, i) } else if i < 22 { (1, i - 10) } else { (2, i - 22) }; sp(0.112 + 0.005 * k as f64, 1.1, -0.2 + 0.2 * g as f64) }).collect()));
     v.push(("12 collinear points", (0..12).map(|i| sp(0.11 + 0.005 * i as f64, 0.3, 0.1)).collect()));
     v.push(("13 collinear points", (0..13).map(|i| sp(0.11 + 0.005 * i as f64, 0.3, 0.1)).collect()));
     v.push(("dense cloud of 150 points", cloud(150, 3).into_iter().map(|p| sp(0.11 + 0.07 * ((bits3(&p)[0] % 1000) as f64 / 1000.0), p.phi.value, 0.1 * p.z.value)).collect()));
@@ -171,7 +173,7 @@ pub fn run(args: &Args) -> i32 {
             }
         }
     }
-    rep.run("remove-one-duplicate-one", plan.len() as u64, 300, true, "12 base multisets (1-3 ideal tracks, noise, back-to-back tracks on one Hough line, same circle at two z, two 8-point stubs, a track with a gap, 12 and 13 collinear points, dense cloud) x {remove point i or none} x {duplicate point j (exact bit copy) or none}", |k, loc| {
+    rep.run("remove-one-duplicate-one", plan.len() as u64, 300, true, "13 base multisets (1-3 ideal tracks, noise, back-to-back tracks on one Hough line, same circle at two z, two 8-point stubs, a track with a gap, 12 and 13 collinear points, dense cloud) x {remove point i or none} x {duplicate point j (exact bit copy) or none}", |k, loc| {
         let (bi, rem, dup) = plan[k as usize];
         let mut pts = bases[bi].1.clone();
         let n = pts.len();
